@@ -10,4 +10,9 @@ require (
 	pgregory.net/rapid v1.3.0
 )
 
+require (
+	github.com/datadog/czlib v0.0.0-20160811164712-4bc9a24e37f2 // indirect
+	github.com/paulmach/protoscan v0.2.1 // indirect
+)
+
 replace github.com/paulmach/osm => /repo
